@@ -6,7 +6,7 @@ COMMON_ASSUMPTIONS = [
 ]
 
 CHECKS = {
-    "RIBQ": dict(runs=[dict(pkg="rib", harness="VfRIB_StepQuick", reach=["end","acked","failed","held","error","pre-built"], opts=dict(budget_s=60))], level_text="", level_note=""),
+    "RIBQ": dict(runs=[dict(pkg="rib", harness=h, reach=["end","pre-built"]) for h in ("VfRIB_q1","VfRIB_q2","VfRIB_qNoFwd")], level_text="", level_note=""),
     "SMOKE": dict(runs=[dict(pkg="rib", harness="VfSmoke_AddNH", reach=["end","zero","installed"])], level_text="", level_note=""),
     "C05": dict(
         runs=[
@@ -28,7 +28,11 @@ CHECKS["C04"] = dict(
     level_note="Trusted: go/ssa, gosym, z3, rib models (candidateRIB/MergeStructInto, validated by TestVfModelAgreement). Interleavings finer than one message are C11's.",
 )
 CHECKS["C08"] = dict(
-    runs=[dict(pkg="server", harness="VfC08_flushDecision", reach=["authorised", "no-instance", "missing-election-field", "unexpected-election-id", "zero-id", "lower-id", "unknown-instance"],
+    runs=[dict(pkg="rib", harness="VfC08_flush_q", reach=["end", "pre-built"], thorough=dict(skip=True), opts=dict(only=["C08:", "C01:", "C03:"]),
+               bounds="canonical pre-state: 1 next-hop, 1 group (optional backup id: missing/self/other), 1 top-level entry (either instance, optional cross-instance reference); Flush of {default}, {vrf} or both"),
+          dict(pkg="rib", harness="VfC08_flush_t", reach=["end", "pre-built"], quick=dict(skip=True), opts=dict(only=["C08:", "C01:", "C03:"]),
+               bounds="as flush_q with 2 groups (shared backup ids), 1 held operation, all top-level kinds, slots in either instance, every map iteration order (n<=3)"),
+          dict(pkg="server", harness="VfC08_flushDecision", reach=["authorised", "no-instance", "missing-election-field", "unexpected-election-id", "zero-id", "lower-id", "unknown-instance"],
                bounds="all (instance selector, election field, 128-bit id, server election state) combinations; RIB with one entry per instance")],
     assumptions=[],
     level_text="Bounded symbolic execution of Server.Flush/checkFlushRequest/RIB.Flush: the full decision table with 128-bit ids is decided by SMT queries.",
@@ -44,6 +48,35 @@ CHECKS["C09"] = dict(
     level_text="Bounded symbolic execution of the real Modify entry point against an independent automaton of the session rules; message contents (modes, 128-bit ids) are symbolic.",
     level_note="Trusted: go/ssa, gosym (coroutine scheduler, one schedule per path), z3, grpc status stub. Interleavings are C10/C11's subject.",
 )
+
+
+def _rib(only, quick, thorough):
+    rs = []
+    for h, b in quick:
+        rs.append(dict(pkg="rib", harness=h, reach=["end", "pre-built"], thorough=dict(skip=True), opts=dict(only=only), bounds=b))
+    for h, b in thorough:
+        rs.append(dict(pkg="rib", harness=h, reach=["end", "pre-built"], quick=dict(skip=True), opts=dict(only=only), bounds=b))
+    return rs
+
+_B = dict(
+    VfRIB_q1="two instances; canonical pre-state through the public API: 1 next-hop + 1 group (<=1 member) in the default instance, 1 IPv4/MPLS entry in either instance (optional cross-instance reference), all optional; then ONE fully symbolic operation (5 kinds x ADD/REPLACE/DELETE x any instance name x symbolic key/payload/references, group of <=2 members)",
+    VfRIB_q2="as q1 but the third slot is a HELD operation (group or IPv4/MPLS entry with an unresolved reference) instead of an installed entry; step group has <=1 member",
+    VfRIB_qNoFwd="forward references disallowed; pre-state 1 next-hop + 1 group; one symbolic operation",
+    VfRIB_t1="both forward-reference modes; pre-state 1 next-hop, 1 group, 1 top-level entry (IPv4/IPv6/MPLS), 1 held operation (ADD or REPLACE), each in either instance with optional payload fields; one symbolic operation with <=2 members",
+    VfRIB_t2="pre-state 1 next-hop, 1 group, 1 IPv4 entry; TWO consecutive symbolic operations",
+    VfRIB_tOrder="pre-state 1 next-hop, 1 group, 2 held operations; one symbolic next-hop/group ADD/REPLACE; every iteration order of the held-operation map",
+)
+_RQ = [(h, _B[h]) for h in ("VfRIB_q1", "VfRIB_q2", "VfRIB_qNoFwd")]
+_RT = [(h, _B[h]) for h in ("VfRIB_t1", "VfRIB_t2", "VfRIB_tOrder")]
+_RIBNOTE = "Trusted: go/ssa, gosym, z3, the Go models of candidateRIB/MergeStructInto (validated natively by TestVfModelAgreement on the modelled fields), the reference RIB in harness/rib/vf_ref.go. Payload = key, group reference (+instance), entry metadata, group members/weights/backup/colour, next-hop network-instance; other payload fields are outside (C07)."
+CHECKS["C01"] = dict(runs=_rib(["C01:"], _RQ, _RT), assumptions=["pre-states are reference-closed states built by the canonical history (next-hops, groups, entries, held operations); one or two further symbolic operations"],
+    level_text="Differential bounded symbolic execution of the real RIB (AddEntry/DeleteEntry and everything below) against a reference fold of the acknowledged operations: after every operation the real tables equal the fold, for every value of the symbolic keys/payloads/instance names.", level_note=_RIBNOTE)
+CHECKS["C02"] = dict(runs=_rib(["C02:"], _RQ, _RT), assumptions=["as C01"],
+    level_text="Same exploration as C01, checking that every acknowledgement happened in a state where the operation was valid and resolvable, that held operations are kept exactly while unresolvable, for every order of the held-operation walk (thorough).", level_note=_RIBNOTE)
+CHECKS["C03"] = dict(runs=_rib(["C03:"], _RQ, _RT) + [dict(pkg="rib", harness="VfC08_flush_q", reach=["end"], thorough=dict(skip=True), opts=dict(only=["C03:"]), bounds="reference counters after Flush (see C08)"),
+                                                    dict(pkg="rib", harness="VfC08_flush_t", reach=["end"], quick=dict(skip=True), opts=dict(only=["C03:"]), bounds="reference counters after Flush (see C08)")],
+    assumptions=["as C01"],
+    level_text="Same exploration as C01, checking DELETE verdicts against referrers found by scanning the installed entries and the counter==referrers invariant after every operation and after Flush.", level_note=_RIBNOTE)
 
 NOT_APPLICABLE = {
     "C19": "whole compliance-suite runs over in-memory gRPC against wrapped servers in every order: a whole-program execution through gRPC, testing and reflection; no bounded symbolic encoding within reach (DESIGN.md §8)",
